@@ -127,7 +127,7 @@ func runC05(c *Ctx) {
 		cfg.CertFile, cfg.KeyFile = c.W.WriteTLSFiles()
 	}
 	users := []authconfig.UserConfig{{Username: "alice", Password: "correct horse"}, {Username: "bob", Password: "bobs password"}}
-	pam := map[string]string{"alice": "correct horse", "bob": "bobs password", "x": "x52\u0300"}
+	pam := map[string]string{"alice": "correct horse", "bob": "bobs password", "x": "x52\u0300", "carol": "pa:ss:wo:rd", "dave": ":", "erin": "trailing colon:"}
 	if w.has("ntlm") || w.has("local") {
 		cfg.AuthSocket = "/sim/auth.sock"
 		cfg.AuthTimeout = 3
@@ -277,6 +277,14 @@ func runC05(c *Ctx) {
 			expectReached = open && (method == "RDG_OUT_DATA" || method == "RDG_IN_DATA")
 		case 3:
 			what = "basic-correct"
+			if c.T.Bool(1, 3) {
+				// passwords may contain colons (only the first colon of user:password separates)
+				cu := []string{"carol", "dave", "erin"}[c.T.Choose(3)]
+				what = "basic-correct(" + cu + ", password with colons)"
+				r = w.request(method, []string{basic(cu, pam[cu])}, from)
+				expectReached = (open || w.has("local") && fault == "") && (method == "RDG_OUT_DATA" || method == "RDG_IN_DATA")
+				break
+			}
 			r = w.request(method, []string{basic("alice", "correct horse")}, from)
 			expectReached = (open || w.has("local") && fault == "") && (method == "RDG_OUT_DATA" || method == "RDG_IN_DATA")
 			if w.has("local") && !w.has("ntlm") && fault == "" && c.S.Viol == nil && reached(r) {
